@@ -645,6 +645,22 @@ def run(case):
                        f'value #{vi}: {C.norm_text(repr(bad[0]))[:100]} is in the result '
                        'but allows_value never approved it'))
         return res
+      # the same document through the flag transport (zlib + base64)
+      if vi % 2 == 0:
+        from fiddle._src.absl_flags import utils as flag_utils
+        z = flag_utils.ZlibJSONSerializer()
+        try:
+          packed = z.serialize(value)
+          back_z = z.deserialize(packed)
+        except Exception as e:  # pylint: disable=broad-except
+          viols.append(V('zlib-transport-raised',
+                         f'value #{vi}: {type(e).__name__}: {C.norm_text(str(e))[:200]}'))
+          return res
+        if C.canon(back_z) != want:
+          viols.append(V('zlib-transport-differs',
+                         f'value #{vi}: ' + '; '.join(C.diff(want, C.canon(back_z)))))
+          return res
+        bump(probes, 'zlib_round_trips')
       try:
         doc2 = serialization.dump_json(back)
       except Exception as e:  # pylint: disable=broad-except
